@@ -223,8 +223,24 @@ def arbitrary_cases(draw, tier):
     m = draw(st.integers(1, hi))
     n = draw(st.integers(1, hi))
     A = draw(gen.qmat(m, n, patterns=("generic", "generic", "int", "pure_imag", "axis", "sparse", "unit", "zero", "units", "units")))
-    kind = draw(st.sampled_from(["plain", "plain", "zero_col", "dup_row", "scaled", "row_dominant", "col_dominant"]))
+    kind = draw(st.sampled_from(["plain", "plain", "zero_col", "dup_row", "scaled", "row_dominant", "col_dominant", "banded",
+                                 "banded", "leading_triangle"]))
     A = A.copy()
+    if kind == "banded":
+        # exact zeros outside a band, sub-diagonal entries often larger than the diagonal: interchanges create fill-in
+        # beyond the band of the input
+        lo, up = draw(st.integers(1, 2)), draw(st.integers(0, 2))
+        ii, jj = np.indices((m, n))
+        A = A * (((ii - jj) <= lo) & ((jj - ii) <= up))[..., None]
+        if draw(st.booleans()):
+            for i in range(min(m, n)):
+                A[i, i] = A[i, i] / 8.0
+    elif kind == "leading_triangle":
+        # the leading min(m,n) block is exactly upper triangular with a non-zero diagonal; rows below it (tall) are dense
+        for i in range(min(m, n)):
+            A[i, :i] = 0.0
+            if not A[i, i].any():
+                A[i, i] = draw(gen.unit_q(exact=True))
     if kind in ("row_dominant", "col_dominant") and m == n:
         # strictly diagonally dominant by rows resp. by columns (one does not imply the other): partial pivoting keeps
         # the diagonal only for COLUMN dominance
